@@ -295,42 +295,39 @@ func pages(input OmegaInput) (output OmegaOutput) {
 		}
 	}
 
-	if r > 2 && !isReadable(p, c, input.Addition.IntegratedPVMMap[n].Memory) {
-		input.VM.Registers[7] = HUH
-		return OmegaOutput{
-			ExitReason: ExitContinue,
-			Addition:   input.Addition,
+	memory := input.Addition.IntegratedPVMMap[n].Memory
+	// r > 2 keeps the contents, which requires every page of the range to be accessible
+	if r > 2 {
+		for i := uint32(p); i < uint32(p+c); i++ {
+			if memory.GetPageAccess(i) == MemoryInaccessible {
+				input.VM.Registers[7] = HUH
+				return OmegaOutput{
+					ExitReason: ExitContinue,
+					Addition:   input.Addition,
+				}
+			}
 		}
 	}
 
 	// otherwise : ok
-	// u_v
-	if r >= 3 {
-		for i := uint32(p); i < uint32(p+c); i++ {
-			input.Addition.IntegratedPVMMap[n].Memory.Pages[i] = &Page{
-				Value:  make([]byte, ZP),
-				Access: MemoryInaccessible,
-			}
-		}
+	var access MemoryAccess
+	switch r {
+	case 0:
+		access = MemoryInaccessible
+	case 1, 3:
+		access = MemoryReadOnly
+	default: // 2, 4
+		access = MemoryReadWrite
 	}
-
-	// u_a
-	if r == 1 || r == 3 {
-		for i := uint32(p); i < uint32(p+c); i++ {
-			input.Addition.IntegratedPVMMap[n].Memory.Pages[i] = &Page{
-				Value:  make([]byte, ZP),
-				Access: MemoryReadOnly,
-			}
+	for i := uint32(p); i < uint32(p+c); i++ {
+		page := memory.Pages[i]
+		if page == nil || r < 3 {
+			// u_v: zeroed for r < 3, kept otherwise
+			page = &Page{Value: make([]byte, ZP)}
 		}
-	}
-
-	if r == 2 || r == 4 {
-		for i := uint32(p); i < uint32(p+c); i++ {
-			input.Addition.IntegratedPVMMap[n].Memory.Pages[i] = &Page{
-				Value:  make([]byte, ZP),
-				Access: MemoryReadWrite,
-			}
-		}
+		// u_a
+		page.Access = access
+		memory.Pages[i] = page
 	}
 
 	input.VM.Registers[7] = OK
